@@ -1012,7 +1012,7 @@ func callBuiltin(caller *frame, fn *ssa.Builtin, args []value) value {
 			src = tmp
 		}
 		for k := 0; k < n; k++ {
-			in.write(&dst[k], src[k])
+			in.write(&dst[k], cloneAggregate(src[k]))
 		}
 		return n
 
